@@ -24,7 +24,8 @@ use mjverif::*;
 
 fn main() {
     let base_set = std::env::var_os("C17_BASE").is_some(); // an EMPTY base is a base too (the working directory)
-    let base = std::env::var("C17_BASE").unwrap_or_default();
+    // the base may contain bytes that are not UTF-8: keep it as the OS gave it
+    let base: std::path::PathBuf = std::env::var_os("C17_BASE").map(std::path::PathBuf::from).unwrap_or_default();
     let mut env = Environment::new();
     let loader = path_loader(base.clone());
     if base_set {
